@@ -964,7 +964,15 @@ fn main() {
         if vals.is_empty() {
             continue;
         }
-        let text = format!("S0, {}", spelled.join(", "));
+        // blanks around the separating commas (also between a closing quote and the comma)
+        let mut text = String::from("S0");
+        for sp in &spelled {
+            text.push_str(r.pick(&[", ", ",", " , ", " ,", "  ,  ", ",\t"]));
+            text.push_str(sp);
+        }
+        // (no blank after the LAST argument: after a closing quote the crate then reports the whole list
+        // as malformed — stricter than uBO, but a rejected rule passes no argument, so the property is
+        // not concerned)
         sm.oracle_evaluations += 1;
         cs.stat("args_by_construction");
         if vals.iter().zip(spelled.iter()).any(|(v, sp)| sp.contains("\\,") && v.replace("\\,", "").contains('\\')) { cs.stat("args_by_construction_escaped_comma_and_backslash_sequence") }
